@@ -146,16 +146,23 @@ struct CbCtx {
     }
 };
 
-// async coroutine used as a resolver: its frame holds a guard whose destructor records whether the bound
-// future was already ready when the frame was destroyed
+// async coroutine used as a resolver. The guard is a by-value parameter, so it lives in the coroutine frame and dies
+// exactly when the frame is destroyed; its destructor records whether the bound future was ready at that moment
+// (only for a coroutine whose body ran: a frame that lost the claim is destroyed unstarted by ~async)
 struct FrameGuard {
     future_common *f;
     long *out;
-    ~FrameGuard() { *out = f->_awaiter.load() == &awaiter::disabled ? 1 : 0; }
+    bool started = false;
+    FrameGuard(future_common *fu, long *o) : f(fu), out(o) {}
+    FrameGuard(FrameGuard &&o) : f(o.f), out(o.out), started(o.started) { o.out = nullptr; }
+    FrameGuard(const FrameGuard &) = delete;
+    ~FrameGuard() {
+        if (out && started) *out = f->_awaiter.load() == &awaiter::disabled ? 1 : 0;
+    }
 };
 template <typename T>
-static async<T> async_resolver(future<T> *f, long *out, long kind, long datum) {
-    FrameGuard g{f, out};
+static async<T> async_resolver(FrameGuard g, long kind, long datum) {
+    g.started = true;
     if (kind == 5) throw test_exc{datum};
     if constexpr (std::is_void_v<T>) co_return;
     else co_return traits<T>::make(datum);
@@ -207,7 +214,7 @@ static void run_case(const vh::Case &cs) {
                             break;
                         }
                         case 4:
-                        case 5: res[i] = async_resolver<T>(&fut, &frame[i], d.kind, d.datum).start(*prom); break;
+                        case 5: res[i] = async_resolver<T>(FrameGuard(&fut, &frame[i]), d.kind, d.datum).start(*prom); break;
                     }
                     resolvers_done++;
                 });
